@@ -61,18 +61,33 @@ only ever installed in the harness's own threads and removed when they end, so H
 calling thread is unaffected; nothing survives a case, so `os._exit` at shard end is fine.
 
 API summary
-    patched(clock=None, extra_modules=()) / patch_modules() / unpatch_modules()   namespace patching
+    patched(clock=None, extra_modules=()) / patch_modules() / unpatch_modules()   namespace patching; imports
+                ALL reactivex submodules first (import_all), swaps real primitives inside class-/module-level
+                reactivex objects created at import in place (restored on unpatch)
     run_program(threads, schedule=(), max_steps=, wall_timeout=, opcodes=, prim_yields=, extra_trace=,
-                time_limit_s=, names=, trace=, reuse_threads=) -> RunResult
+                time_limit_s=, names=, trace=, reuse_threads=, fresh_thread_state=, stall_timeout=,
+                clock_us=, audit=) -> RunResult
     RunResult: events, steps, owners, labels, choices, deadlock, exceptions, returns, leftover,
                budget_exceeded, horizon_reached, complete, nthreads, clock_us, schedule,
-               switches(), overlapped(), describe(), fingerprint()
-    run_checked(factory, schedule)           run twice on fresh objects, HarnessError unless identical
-    next_preemptions(res, after) / k1_schedules(base) / explore(factory, K)     exhaustive schedules
-    raw_schedules(K) (Hypothesis strategy) + resolve_schedule(raw, base)           drawn schedules
-    yield_point(label) / log(*payload) / now() / current_tid() / in_run()          for probes
-    audit_object(obj)                        real (uncooperative) locks reachable from obj, should be []
+               switches(), overlapped(), describe(), fingerprint() (address-free)
+    run_checked(factory, schedule, clock_us=)  run twice on fresh objects, HarnessError unless identical
+    next_preemptions(res, after) / k1_schedules(base) / explore(factory, K, slice_=, clock_us=)   exhaustive
+    walk(factory, points, clock_us=)           drawn descent, every drawn preemption effective by construction
+    raw_schedules(K) (Hypothesis strategy) + resolve_schedule(raw, base, effective=)   drawn schedules
+    yield_point(label) / log(*payload) / now() / clock_us() / set_clock_us() / current_tid() / in_run()
+    aborting() / Abort                       for probes that loop or catch BaseException
+    fresh_thread_state()                     reset reactivex's thread-keyed singletons (automatic per run with
+                                             reuse_threads=True)
+    audit(*objs) / audit_object(obj)         HarnessError / list of real (uncooperative) primitives reachable
+    import_all() / reactivex_dir()
     C* classes                               the cooperative primitives, usable directly in harness code
+
+Robustness against REAL primitives (objects built before patching, or by code det does not patch): a controlled
+thread that blocks on one stops the whole run; run_program notices that no step is executed for `stall_timeout`
+(5 s) wall-clock seconds and raises HarnessError naming the thread's stack and the real primitives reachable from
+the innermost reactivex frame (e.g. `self._lock`), instead of hanging until the shard timeout.  Use
+`det.audit(obj)` in a factory (or run_program(audit=True)) for an immediate check.  In free mode (calling thread)
+a real timed wait cannot be intercepted: audit the objects you drive there.
 
 Throughput (SingleAssignmentDisposable.set_disposable || dispose, 18 steps per run, one process):
 about 2500 schedules/s with reuse_threads=True and about 370/s with fresh OS threads per run on an idle
@@ -94,6 +109,7 @@ from __future__ import annotations
 
 import _thread
 import concurrent.futures as _real_cf
+import gc as _gc
 import os
 import sys
 import threading as _real_threading
@@ -113,7 +129,8 @@ __all__ = [
     "patched", "patch_modules", "unpatch_modules", "run_program", "run_checked", "explore", "k1_schedules",
     "raw_schedules", "resolve_schedule", "yield_point", "log", "now", "current_tid", "in_run", "FakeClock",
     "RunResult", "DeadlockError", "HarnessError", "CLock", "CRLock", "CEvent", "CCondition", "CSemaphore",
-    "CThread", "CTimer", "CFuture", "CThreadPoolExecutor", "audit_object", "EPOCH",
+    "CThread", "CTimer", "CFuture", "CThreadPoolExecutor", "audit_object", "EPOCH", "clock_us", "set_clock_us",
+    "aborting", "Abort", "audit", "import_all", "fresh_thread_state", "walk", "next_preemptions", "reactivex_dir",
 ]  # fmt: skip
 
 EPOCH = datetime(2001, 1, 1, tzinfo=timezone.utc)
@@ -131,6 +148,9 @@ class DeadlockError(HarnessError):
 
 class _Abort(BaseException):
     """Raised inside controlled threads to unwind them at the end of an aborted run."""
+
+
+Abort = _Abort  # public name
 
 
 class FakeClock:
@@ -163,6 +183,23 @@ _tls = _real_threading.local()  # .ct = the _CT of the current controlled OS thr
 def now() -> datetime:
     """Fake UTC now (this is what replaces reactivex default_now)."""
     return EPOCH + timedelta(microseconds=_clock.us)
+
+
+def clock_us() -> int:
+    """Fake clock in integer microseconds since EPOCH."""
+    return _clock.us
+
+
+def set_clock_us(us: int) -> None:
+    """Set the fake clock (e.g. back to a case's start value before re-running a program)."""
+    _clock.us = int(us)
+
+
+def aborting() -> bool:
+    """True while the current run is being unwound (budget, deadlock, end of run): probe code that catches
+    BaseException must re-raise `det.Abort`, and loops should stop when this is true."""
+    h = _H
+    return bool(h is not None and h.aborting)
 
 
 def in_run() -> bool:
@@ -213,6 +250,13 @@ class _CT:
         self.os_thread = None
 
 
+_ADDR = __import__("re").compile(r"0x[0-9a-fA-F]{4,}")
+
+
+def _scrub(text):
+    return _ADDR.sub("0x?", text)
+
+
 class RunResult:
     """Outcome of one controlled run.
 
@@ -247,8 +291,10 @@ class RunResult:
         return not (self.deadlock or self.budget_exceeded or self.horizon_reached)
 
     def fingerprint(self):
-        return (tuple(self.owners), tuple(self.labels), repr(self.events), repr(self.deadlock),
-                tuple(sorted((k, type(v).__name__, str(v)) for k, v in self.exceptions.items())),
+        """Everything that must be equal when a (program, schedule) pair is run again; object addresses
+        (`0x7f...` in reprs of payloads, exceptions) are masked."""
+        return (tuple(self.owners), tuple(self.labels), _scrub(repr(self.events)), _scrub(repr(self.deadlock)),
+                tuple(sorted((k, type(v).__name__, _scrub(str(v))) for k, v in self.exceptions.items())),
                 self.clock_us, self.budget_exceeded)  # fmt: skip
 
     def switches(self):
@@ -359,6 +405,7 @@ class _Harness:
         self.time_limit_us = time_limit_us
         self._code_cache = {}
         self._resume_label = {}
+        self.obj_names = []
 
     # ---- thread creation -------------------------------------------------------------------
     def new_thread(self, fn, name, daemon, program, owner=None):
@@ -567,6 +614,21 @@ class _Harness:
         self.do_yield(ct, label)
 
 
+def _tag(obj, kind):
+    """Run-stable name of a primitive: `Lock#3` = the 4th primitive mentioned in this run (no addresses)."""
+    h = _H
+    if h is None:
+        return kind
+    if getattr(obj, "_name_run", None) is not h:
+        try:
+            obj._name_run = h
+            obj._serial = len(h.obj_names)
+            h.obj_names.append(obj)
+        except AttributeError:
+            return kind
+    return f"{kind}#{obj._serial}"
+
+
 def _describe_wait(t):
     on = t.blocked_on
     d = getattr(on, "_describe", None)
@@ -611,7 +673,7 @@ class CLock:
 
     def _describe(self):
         o = self._owner_ct
-        return f"{self._kind}@{id(self) & 0xffff:x} held by {'nobody' if self._owner is None else (o.name if o else 'free-mode thread')}"
+        return f"{_tag(self, self._kind)} held by {'nobody' if self._owner is None else (o.name if o else 'free-mode thread')}"
 
     def locked(self):
         return self._owner is not None
@@ -778,7 +840,7 @@ class CEvent:
         self._flag = False
 
     def _describe(self):
-        return f"Event@{id(self) & 0xffff:x} (set={self._flag})"
+        return f"{_tag(self, 'Event')} (set={self._flag})"
 
     def is_set(self):
         return self._flag
@@ -823,7 +885,7 @@ class CCondition:
         self._waiters = []
 
     def _describe(self):
-        return f"Condition@{id(self) & 0xffff:x} over {self._lock._describe()}"
+        return f"{_tag(self, 'Condition')} over {self._lock._describe()}"
 
     def __enter__(self):
         return self._lock.__enter__()
@@ -904,7 +966,7 @@ class CSemaphore:
         self._value = value
 
     def _describe(self):
-        return f"Semaphore@{id(self) & 0xffff:x} (value={self._value})"
+        return f"{_tag(self, 'Semaphore')} (value={self._value})"
 
     def acquire(self, blocking=True, timeout=None):
         h, ct = _ctx()
@@ -1039,7 +1101,7 @@ class CFuture:
         self._callbacks = []
 
     def _describe(self):
-        return f"Future@{id(self) & 0xffff:x} ({self._state})"
+        return f"{_tag(self, 'Future')} ({self._state})"
 
     def cancel(self):
         if self._state in ("RUNNING", "FINISHED"):
@@ -1236,10 +1298,58 @@ def _coop_instance(v):
 _patch_state = None
 _real_default_now = None
 _scan_cache = None
+_imported_all = False
+_REAL_PRIMS = None  # tuple of the real primitive instance types, filled lazily
+
+
+def _real_prim_types():
+    global _REAL_PRIMS
+    if _REAL_PRIMS is None:
+        _REAL_PRIMS = (_LOCK_T, _RLOCK_T, _real_threading.Event, _real_threading.Condition, _real_threading.Semaphore,
+                       _real_threading.BoundedSemaphore)  # fmt: skip
+    return _REAL_PRIMS
+
+
+def import_all():
+    """Import every reactivex submodule now (once per process).  reactivex imports most operator / observable
+    modules lazily inside functions; a module first imported during a patched session would keep the real
+    threading names and its import would run under the tracer.  Optional integrations whose third-party
+    dependency is missing (mainloop/eventloop schedulers) are skipped silently."""
+    global _imported_all
+    if _imported_all:
+        return
+    import importlib
+    import pkgutil
+
+    import reactivex
+
+    def onerror(name):
+        pass
+
+    for m in pkgutil.walk_packages(reactivex.__path__, "reactivex.", onerror=onerror):
+        if m.name in sys.modules:
+            continue
+        try:
+            importlib.import_module(m.name)
+        except Exception:  # noqa: BLE001 - optional dependency missing or import-time failure: not our business
+            pass
+    _imported_all = True
+
+
+def _is_candidate(v):
+    """Instance (not class / function / module) of a class defined in reactivex, or a threading.local."""
+    if isinstance(v, (type, types.ModuleType, types.FunctionType, types.BuiltinFunctionType, types.MethodType)):
+        return False
+    if isinstance(v, _real_threading.local):
+        return True
+    mod = getattr(type(v), "__module__", "") or ""
+    return mod == "reactivex" or mod.startswith("reactivex.")
 
 
 def _scan(mods):
-    """[(module dict | None, class | None, name, original, factory of the replacement | None)]"""
+    """[(module dict | None, class | None, name, original, how)] where `how` is a factory of the replacement,
+    None (thread-local: re-create with type(orig)() after everything else is patched) or "inside" (an
+    import-time instance whose *inner* real primitives are swapped in place at every patch)."""
     vmap, _ = _value_map()
     out = []
     seen_cls_attr = set()
@@ -1253,19 +1363,95 @@ def _scan(mods):
             rep = _coop_instance(val)
             if rep is not None:
                 out.append((d, None, name, val, type(rep)))
-            elif isinstance(val, type) and getattr(val, "__module__", "").startswith("reactivex"):
-                for an, av in list(vars(val).items()):
-                    if (id(val), an) in seen_cls_attr:
-                        continue
-                    seen_cls_attr.add((id(val), an))
-                    rep = _coop_instance(av)
-                    if rep is not None:
-                        out.append((None, val, an, av, type(rep)))
-                    elif an == "_global" and isinstance(av, weakref.WeakKeyDictionary):
-                        out.append((None, val, an, av, weakref.WeakKeyDictionary))
-                    elif an == "_local" and isinstance(av, _real_threading.local):
-                        out.append((None, val, an, av, None))
+            elif isinstance(val, type) and (getattr(val, "__module__", "") or "").startswith("reactivex"):
+                stack = [val]
+                while stack:  # the class and its nested classes
+                    klass = stack.pop()
+                    for an, av in list(vars(klass).items()):
+                        if (id(klass), an) in seen_cls_attr:
+                            continue
+                        seen_cls_attr.add((id(klass), an))
+                        rep = _coop_instance(av)
+                        if rep is not None:
+                            out.append((None, klass, an, av, type(rep)))
+                        elif an == "_global" and isinstance(av, weakref.WeakKeyDictionary):
+                            out.append((None, klass, an, av, weakref.WeakKeyDictionary))
+                        elif isinstance(av, _real_threading.local):
+                            out.append((None, klass, an, av, None))
+                        elif isinstance(av, type):
+                            if (getattr(av, "__module__", "") or "").startswith("reactivex") and av.__qualname__.startswith(klass.__qualname__ + "."):
+                                stack.append(av)
+                        elif _is_candidate(av):
+                            out.append((None, klass, an, av, "inside"))
+            elif isinstance(val, _real_threading.local):
+                out.append((d, None, name, val, None))
+            elif _is_candidate(val):
+                out.append((d, None, name, val, "inside"))
     return out
+
+
+def _coop_for(real, memo):
+    """Cooperative stand-in for the real primitive instance `real` (same sharing: one stand-in per real object)."""
+    r = memo.get(id(real))
+    if r is not None:
+        return r[1]
+    t = type(real)
+    if t is _LOCK_T:
+        new = CLock()
+    elif t is _RLOCK_T:
+        new = CRLock()
+    elif t is _real_threading.Event:
+        new = CEvent()
+        new._flag = real.is_set()
+    elif t is _real_threading.Condition:
+        inner = getattr(real, "_lock", None)
+        new = CCondition(_coop_for(inner, memo) if type(inner) in (_LOCK_T, _RLOCK_T) else None)
+    else:  # Semaphore / BoundedSemaphore
+        new = CSemaphore(getattr(real, "_value", 1))
+    memo[id(real)] = (real, new)
+    return new
+
+
+def _children(obj):
+    """(container, key, value) triples of the attribute / item slots of obj that the walkers look into."""
+    d = getattr(obj, "__dict__", None)
+    if isinstance(d, dict):
+        for k, v in list(d.items()):
+            yield d, k, v
+    if isinstance(obj, dict):
+        for k, v in list(obj.items())[:64]:
+            yield obj, k, v
+    elif isinstance(obj, list):
+        for i, v in enumerate(obj[:64]):
+            yield obj, i, v
+    elif isinstance(obj, (tuple, set, frozenset)) or type(obj).__name__ == "deque":
+        for v in list(obj)[:64]:
+            yield None, None, v
+
+
+_SKIP_WALK = (type, types.ModuleType, types.FunctionType, types.BuiltinFunctionType, types.MethodType, str, bytes, int,
+              float, bool, type(None), CLock, CEvent, CCondition, CSemaphore)  # fmt: skip
+
+
+def _swap_inside(obj, memo, undo, depth=4, seen=None, path="", found=None):
+    """Replace every real primitive reachable from obj (attributes, list/dict items; depth-limited) by a cooperative
+    stand-in, in place; record (container, None, key, original) in `undo`.  Returns the paths swapped."""
+    seen = set() if seen is None else seen
+    found = [] if found is None else found
+    if id(obj) in seen or depth < 0 or isinstance(obj, _SKIP_WALK):
+        return found
+    seen.add(id(obj))
+    prims = _real_prim_types()
+    for cont, key, val in _children(obj):
+        if type(val) in prims:
+            if cont is None:
+                raise HarnessError(f"real {type(val).__name__} inside an immutable container at {path}: cannot be made cooperative")
+            undo.append((cont, None, key, val))
+            cont[key] = _coop_for(val, memo)
+            found.append(f"{path}.{key}")
+        else:
+            _swap_inside(val, memo, undo, depth - 1, seen, f"{path}.{key}" if key is not None else path + "[]", found)
+    return found
 
 
 def reactivex_dir() -> str:
@@ -1275,48 +1461,71 @@ def reactivex_dir() -> str:
 
 
 def patch_modules(clock: FakeClock | None = None, extra_modules=()):
-    """Replace, in every already-imported reactivex.* module (and `extra_modules`):
+    """Import all reactivex submodules (see import_all), then replace, in every reactivex.* module (and
+    `extra_modules`):
       * names bound to threading.Lock/RLock/Event/Condition/Semaphore/Thread/Timer, to
         concurrent.futures.Future/ThreadPoolExecutor, to the `threading` module itself, and to
         `default_now` (matched by value identity, so aliases are found too);
       * module-level and class-level primitive *instances* created at import
         (TimeoutScheduler._lock, ImmediateScheduler._lock, ...);
-      * per-class / per-thread singletons that may carry real locks from before the patch:
-        `<Scheduler>._global` WeakKeyDictionaries and CurrentThreadSchedulerSingleton._local.
+      * real primitives *inside* module-level / class-level instances of reactivex classes created at import
+        (e.g. a Trampoline stored as a class attribute): swapped in place for cooperative stand-ins with the
+        same sharing (a Condition keeps using the stand-in of its lock), the object itself stays the same;
+      * per-class / per-thread singletons that may carry state or real locks from before the patch:
+        `<Scheduler>._global` WeakKeyDictionaries and every class- or module-level threading.local
+        (re-created with type(obj)(), e.g. CurrentThreadSchedulerSingleton._local).
     Objects under test must be created after this call.  Returns a report dict
-    {"names": [(module, name)], "instances": [(owner, attr)]}.  Undo with unpatch_modules()."""
-    global _patch_state, _clock
+    {"names": [(module, name)], "instances": [(owner, attr)], "inside": [path]}.  Undo with unpatch_modules()
+    (everything, including the in-place swaps, is restored)."""
+    global _patch_state, _clock, _scan_cache
     if _patch_state is not None:
         raise HarnessError("patch_modules() called twice without unpatch_modules()")
     import reactivex  # noqa: F401  (must be imported by the caller's sys.path rules)
-    import reactivex.scheduler  # noqa: F401  make sure the scheduler modules exist before scanning
-    import reactivex.internal.basic as _basic
+    import reactivex.scheduler  # noqa: F401
 
+    import_all()
     mods = [m for n, m in sorted(sys.modules.items()) if m is not None and (n == "reactivex" or n.startswith("reactivex."))]
     mods += [m for m in extra_modules]
     sig = tuple(id(m) for m in mods)
-    global _scan_cache
     if _scan_cache is None or _scan_cache[0] != sig:
         _scan_cache = (sig, _scan(mods))
     undo = []
-    report = {"names": [], "instances": []}
-    late = []
-    for d, cls, name, orig, make in _scan_cache[1]:
-        if d is not None:
-            if d.get(name) is not orig:
+    report = {"names": [], "instances": [], "inside": []}
+    late, inside = [], []
+    try:
+        for d, cls, name, orig, make in _scan_cache[1]:
+            cur = d.get(name) if d is not None else vars(cls).get(name)
+            if make == "inside":
+                if cur is not None:
+                    inside.append((d, cls, name, cur))
+                continue
+            if cur is not orig:
                 raise HarnessError(f"patch_modules: {name} changed since the scan")
-            d[name] = make()
-            report["names"].append((d.get("__name__"), name))
-        else:
-            report["instances"].append((f"{cls.__module__}.{cls.__qualname__}", name))
+            if d is not None:
+                report["names"].append((d.get("__name__"), name))
+            else:
+                report["instances"].append((f"{cls.__module__}.{cls.__qualname__}", name))
+            undo.append((d, cls, name, orig))
             if make is None:
-                late.append((cls, name, orig))
+                late.append((d, cls, name, orig))
+            elif d is not None:
+                d[name] = make()
             else:
                 setattr(cls, name, make())
-        undo.append((d, cls, name, orig))
-    # thread-local singletons are re-created last, when their class sees the patched names
-    for cls, name, orig in late:
-        setattr(cls, name, type(orig)())
+        # thread-local singletons are re-created last, when their class sees the patched names
+        for d, cls, name, orig in late:
+            new = type(orig)()
+            if d is not None:
+                d[name] = new
+            else:
+                setattr(cls, name, new)
+        memo = {}
+        for d, cls, name, cur in inside:
+            owner = d.get("__name__") if d is not None else f"{cls.__module__}.{cls.__qualname__}"
+            report["inside"] += _swap_inside(cur, memo, undo, path=f"{owner}.{name}")
+    except BaseException:
+        _restore(undo)
+        raise
     prev_clock = _clock
     if clock is not None:
         _clock = clock
@@ -1324,18 +1533,43 @@ def patch_modules(clock: FakeClock | None = None, extra_modules=()):
     return report
 
 
-def unpatch_modules():
-    global _patch_state, _clock
-    if _patch_state is None:
-        return
-    undo, prev_clock = _patch_state
+def _restore(undo):
     for d, cls, name, val in reversed(undo):
         if d is not None:
             d[name] = val
         else:
             setattr(cls, name, val)
+
+
+def unpatch_modules():
+    global _patch_state, _clock
+    if _patch_state is None:
+        return
+    undo, prev_clock = _patch_state
+    _restore(undo)
     _clock = prev_clock
     _patch_state = None
+
+
+def fresh_thread_state():
+    """Give every class-level `_global` WeakKeyDictionary and every class-/module-level threading.local of
+    reactivex (CurrentThreadScheduler._global, CurrentThreadSchedulerSingleton._local, the Timeout/Immediate
+    singletons) a fresh empty instance, so thread-keyed library state of an earlier run (pooled OS threads!)
+    cannot leak into the next one.  Only while patched (unpatch restores the originals).  run_program does this
+    itself at the start of a run when fresh_thread_state=True (the default with reuse_threads=True)."""
+    if _patch_state is None or _scan_cache is None:
+        raise HarnessError("fresh_thread_state() requires det.patched()")
+    for d, cls, name, orig, make in _scan_cache[1]:
+        if make is None:
+            new = type(orig)()
+        elif make is weakref.WeakKeyDictionary:
+            new = make()
+        else:
+            continue
+        if d is not None:
+            d[name] = new
+        else:
+            setattr(cls, name, new)
 
 
 class patched:
@@ -1355,36 +1589,79 @@ class patched:
         return False
 
 
-def audit_object(obj, depth=3, _seen=None, _path="obj"):
-    """Paths of real (non-cooperative) lock/event/condition instances reachable from obj's attributes.
-    Use in a check's self-test to make sure the object under test was built after patching."""
+def audit_object(obj, depth=3, _seen=None, _path="obj", rx_holder_only=False):
+    """Paths of real (non-cooperative) lock/event/condition instances reachable from obj's attributes and
+    list/dict items.  With rx_holder_only=True only primitives held directly by an instance of a reactivex class
+    are reported.  Use in a check's self-test to make sure the object under test was built after patching."""
     out = []
     _seen = _seen if _seen is not None else set()
-    if id(obj) in _seen or depth < 0:
+    if id(obj) in _seen or depth < 0 or isinstance(obj, _SKIP_WALK):
         return out
     _seen.add(id(obj))
-    if type(obj) in (_LOCK_T, _RLOCK_T, _real_threading.Event, _real_threading.Condition):
+    prims = _real_prim_types()
+    if type(obj) in prims:
         return [_path]
-    d = getattr(obj, "__dict__", None)
-    if isinstance(d, dict):
-        for k, v in list(d.items()):
-            out += audit_object(v, depth - 1, _seen, f"{_path}.{k}")
+    is_rx = (getattr(type(obj), "__module__", "") or "").startswith("reactivex")
+    for cont, key, val in _children(obj):
+        p = f"{_path}.{key}" if key is not None else _path + "[]"
+        if type(val) in prims:
+            if is_rx or not rx_holder_only:
+                out.append(p)
+        else:
+            out += audit_object(val, depth - 1, _seen, p, rx_holder_only)
     return out
+
+
+def audit(*objs, depth=4):
+    """Raise HarnessError (fast, instead of a hang later) if a real threading primitive is reachable from any of
+    `objs`, i.e. the object was built before det.patched() or by code whose names det does not patch."""
+    for i, o in enumerate(objs):
+        bad = audit_object(o, depth=depth, _path=f"{type(o).__name__}")
+        if bad:
+            raise HarnessError(f"object {i} carries real threading primitives (built before det.patched()?): {bad[:6]}")
+
+
+def _callable_roots(fn):
+    """Objects a thread callable closes over (bound self, closure cells, partial arguments, defaults)."""
+    roots = []
+    seen = 0
+    while fn is not None and seen < 4:
+        seen += 1
+        roots.append(getattr(fn, "__self__", None))
+        for c in getattr(fn, "__closure__", None) or ():
+            try:
+                roots.append(c.cell_contents)
+            except ValueError:
+                pass
+        roots += list(getattr(fn, "__defaults__", None) or ())
+        roots += list(getattr(fn, "args", None) or ())
+        fn = getattr(fn, "func", None) or getattr(fn, "__func__", None)
+    return [r for r in roots if r is not None]
 
 
 # ---------------------------------------------------------------------------------------------
 # running programs
 # ---------------------------------------------------------------------------------------------
 def run_program(threads, schedule=(), *, max_steps=20000, wall_timeout=20.0, opcodes=(), prim_yields="auto",
-                extra_trace=(), time_limit_s=None, names=None, trace=True, reuse_threads=False) -> RunResult:  # fmt: skip
+                extra_trace=(), time_limit_s=None, names=None, trace=True, reuse_threads=False,
+                fresh_thread_state=None, stall_timeout=5.0, clock_us=None, audit=False) -> RunResult:  # fmt: skip
     """Run the callables `threads` as logical threads 0..T-1 under `schedule` = [[step, tid], ...].
 
     opcodes: iterable of co_qualname whose frames also yield per bytecode, or True for all traced frames.
     extra_trace: extra directory/file path prefixes whose frames are line-traced (e.g. asyncio files).
     trace=False turns line tracing off (yield points only at primitives and explicit yields).
     time_limit_s: do not advance the fake clock beyond this many seconds after EPOCH.
-    reuse_threads=True runs logical threads on pooled OS threads (5-10x faster on a loaded machine); only
-    for code that does not depend on thread identity or thread-local state (not for CurrentThreadScheduler).
+    reuse_threads=True runs logical threads on pooled OS threads (5-10x faster on a loaded machine).
+    fresh_thread_state: reset reactivex's thread-keyed singletons (see fresh_thread_state()) before the threads
+      start; default = reuse_threads, so pooled OS threads do not carry trampolines/schedulers from earlier runs.
+    clock_us: set the fake clock to this value before the run (every run of a case should start at the same instant).
+    stall_timeout: if no step is executed for this many wall-clock seconds the running thread is assumed to be
+      blocked on a REAL primitive (object built before patching / by unpatched code): HarnessError naming the
+      thread's stack and the real primitives reachable from the innermost reactivex frame.  None disables.
+    audit=True additionally checks, before the run, that no real primitive held by a reactivex object is reachable
+      from the thread callables (bound self, closure cells, partial arguments): immediate HarnessError.
+    Cyclic garbage collection is switched off for the duration of the run (a finalizer of an older object running
+    traced lines at an allocation-dependent moment would make the run non-deterministic) and restored afterwards.
     Must be called while patched (see `patched`) from a thread that is not itself controlled.
     """
     global _H
@@ -1392,6 +1669,17 @@ def run_program(threads, schedule=(), *, max_steps=20000, wall_timeout=20.0, opc
         raise HarnessError("run_program is not re-entrant")
     if _patch_state is None:
         raise HarnessError("run_program requires det.patched()/patch_modules() to be active")
+    if audit:
+        for i, fn in enumerate(threads):
+            for root in _callable_roots(fn):
+                bad = audit_object(root, depth=4, _path=type(root).__name__, rx_holder_only=True)
+                if bad:
+                    raise HarnessError(f"thread {i} can reach real threading primitives held by reactivex objects "
+                                       f"(built before det.patched()?): {bad[:6]}")  # fmt: skip
+    if fresh_thread_state if fresh_thread_state is not None else reuse_threads:
+        globals()["fresh_thread_state"]()
+    if clock_us is not None:
+        _clock.us = int(clock_us)
     prefixes = ((reactivex_dir(),) if trace else ()) + tuple(extra_trace)
     h = _Harness(schedule, max_steps, opcodes, prefixes or ("\0",), prim_yields,
                  None if time_limit_s is None else _us(time_limit_s), reuse_threads)  # fmt: skip
@@ -1406,6 +1694,9 @@ def run_program(threads, schedule=(), *, max_steps=20000, wall_timeout=20.0, opc
     prev_trace = sys.gettrace()
     if h.opcodes or h.all_opcodes:
         sys._getframe().f_trace_opcodes = True
+    gc_was_on = _gc.isenabled()
+    if gc_was_on:
+        _gc.disable()
     sys.settrace(_null_trace)
     try:
         for i, fn in enumerate(threads):
@@ -1413,10 +1704,8 @@ def run_program(threads, schedule=(), *, max_steps=20000, wall_timeout=20.0, opc
         first = h._decide(None, "start")
         if first is not None:
             first.gate.release()
-        if not h.done_lock.acquire(timeout=wall_timeout):
-            h.aborting = True
-            _unwind(h, 2.0)
-            raise HarnessError(f"wall-clock backstop ({wall_timeout}s) hit at step {h.step}: owners tail={h.owners[-10:]} labels tail={h.labels[-5:]}")
+        if not h.done_lock.acquire(timeout=0.25 if stall_timeout is not None else wall_timeout):
+            _watch(h, wall_timeout, stall_timeout)
         h.aborting = True
         stuck = _unwind(h, 5.0)
         if stuck:
@@ -1426,6 +1715,8 @@ def run_program(threads, schedule=(), *, max_steps=20000, wall_timeout=20.0, opc
         sys.settrace(prev_trace)
         if h.opcodes or h.all_opcodes:
             sys._getframe().f_trace_opcodes = False
+        if gc_was_on:
+            _gc.enable()
     res.events = h.events
     res.steps = h.step
     res.owners, res.labels, res.choices = h.owners, h.labels, h.choices
@@ -1439,6 +1730,57 @@ def run_program(threads, schedule=(), *, max_steps=20000, wall_timeout=20.0, opc
         if isinstance(e, HarnessError):
             raise e
     return res
+
+
+def _watch(h, wall_timeout, stall_timeout):
+    """Controller side of a run that did not finish within the first 250 ms: wait for the end, but fail fast
+    (HarnessError) when no step is executed for `stall_timeout` seconds or the wall-clock backstop is hit."""
+    import time as _time
+
+    t0 = _time.monotonic() - 0.25
+    last_step, last_change = h.step, _time.monotonic()
+    while True:
+        if h.done_lock.acquire(timeout=0.25):
+            return
+        now_ = _time.monotonic()
+        if h.step != last_step:
+            last_step, last_change = h.step, now_
+        elif stall_timeout is not None and now_ - last_change >= stall_timeout:
+            why = f"no step executed for {stall_timeout}s of wall-clock time at step {h.step}"
+            break
+        if now_ - t0 >= wall_timeout:
+            why = f"wall-clock backstop ({wall_timeout}s) hit at step {h.step}"
+            break
+    diag = _diagnose(h)
+    h.aborting = True
+    _unwind(h, 0.5)
+    raise HarnessError(f"{why}: {diag}; owners tail={h.owners[-10:]} labels tail={h.labels[-5:]}")
+
+
+def _diagnose(h):
+    """Where is the thread that should be running, and which real primitives can it see?"""
+    cur = h.cur
+    if cur is None or cur.os_thread is None:
+        return "no current thread"
+    frame = sys._current_frames().get(cur.os_thread.ident)
+    if frame is None:
+        return f"thread {cur.name}: no Python frame"
+    stack, f = [], frame
+    rx_frame = None
+    while f is not None and len(stack) < 12:
+        fn = f.f_code.co_filename
+        stack.append(f"{os.path.basename(fn)}:{f.f_lineno}:{f.f_code.co_name}")
+        if rx_frame is None and fn.startswith(h.prefixes):
+            rx_frame = f
+        f = f.f_back
+    real = []
+    if rx_frame is not None:
+        for k, v in list(rx_frame.f_locals.items()):
+            real += audit_object(v, depth=3, _path=k)
+    hint = (f"REAL threading primitives reachable from {os.path.basename(rx_frame.f_code.co_filename)}:{rx_frame.f_lineno}:"
+            f"{rx_frame.f_code.co_name}: {real[:8]} -- the object was built before det.patched() or by code whose names "
+            f"det does not patch, so a controlled thread blocks the OS thread instead of yielding") if real else "no real primitive found in the innermost reactivex frame's locals"  # fmt: skip
+    return f"thread {cur.name} is at {' <- '.join(stack[:8])}; {hint}"
 
 
 def _null_trace(frame, event, arg):
@@ -1470,19 +1812,35 @@ def _unwind(h, per_thread_timeout):
     return stuck
 
 
-def run_checked(factory, schedule=(), **kw):
+def run_checked(factory, schedule=(), *, clock_us=None, **kw):
     """factory() -> (threads, ctx).  Runs the (program, schedule) pair twice on fresh objects and raises
-    HarnessError unless both runs produce the same step owners, labels, events and outcome.
-    Returns (RunResult, ctx) of the second run."""
-    c0 = _clock.us
+    HarnessError unless both runs produce the same step owners, labels, events and outcome.  Both runs start
+    at fake time `clock_us` (default: the clock value on entry; pass the case's start value when earlier runs
+    of the case have advanced the clock).  Returns (RunResult, ctx) of the second run."""
+    c0 = _clock.us if clock_us is None else int(clock_us)
+    _clock.us = c0
     threads, ctx = factory()
     r1 = run_program(threads, schedule, **kw)
     _clock.us = c0
     threads, ctx = factory()
     r2 = run_program(threads, schedule, **kw)
     if r1.fingerprint() != r2.fingerprint():
-        raise HarnessError(f"non-deterministic run for schedule {list(schedule)}:\n  {r1.describe()}\n  {r2.describe()}")
+        raise HarnessError(f"non-deterministic run for schedule {list(schedule)}:\n  {r1.describe()}\n  {r2.describe()}\n  first difference: {_first_diff(r1, r2)}")
     return r2, ctx
+
+
+def _first_diff(r1, r2):
+    for i, (a, b) in enumerate(zip(zip(r1.owners, r1.labels), zip(r2.owners, r2.labels))):
+        if a != b:
+            return f"step {i}: {a} vs {b}"
+    if r1.steps != r2.steps:
+        return f"steps {r1.steps} vs {r2.steps}"
+    if _scrub(repr(r1.events)) != _scrub(repr(r2.events)):
+        for i, (a, b) in enumerate(zip(r1.events, r2.events)):
+            if _scrub(repr(a)) != _scrub(repr(b)):
+                return f"event {i}: {a!r} vs {b!r}"
+        return f"event count {len(r1.events)} vs {len(r2.events)}"
+    return f"outcome/clock: {r1.clock_us} vs {r2.clock_us}, {r1.deadlock!r} vs {r2.deadlock!r}, {r1.exceptions!r} vs {r2.exceptions!r}"
 
 
 # ---------------------------------------------------------------------------------------------
@@ -1505,12 +1863,15 @@ def k1_schedules(base: RunResult):
     return [[p] for p in next_preemptions(base)]
 
 
-def explore(factory, K=1, **kw):
+def explore(factory, K=1, *, slice_=None, clock_us=None, **kw):
     """Exhaustive exploration of all schedules with at most K entries, breadth-first (all schedules with k
     entries before any with k+1, so the first failure found has the fewest preemptions; every schedule
     extends an explored one by an entry at a later step).  factory() -> (threads, ctx) is called for
-    every run.  Yields (schedule, RunResult, ctx), starting with the unpreempted run."""
-    c0 = _clock.us
+    every run; every run starts at fake time `clock_us` (default: the clock value on entry).
+    slice_=(i, m): expand only the first-level preemptions whose index is i modulo m (to spread one program
+    over m cases); the unpreempted run is always yielded.
+    Yields (schedule, RunResult, ctx), starting with the unpreempted run."""
+    c0 = _clock.us if clock_us is None else int(clock_us)
     level = [[]]
     for k in range(K + 1):
         nxt = []
@@ -1521,8 +1882,30 @@ def explore(factory, K=1, **kw):
             yield sched, res, ctx
             if k < K:
                 after = sched[-1][0] if sched else -1
-                nxt.extend(sched + [p] for p in next_preemptions(res, after))
+                cand = next_preemptions(res, after)
+                if k == 0 and slice_:
+                    cand = [p for j, p in enumerate(cand) if j % slice_[1] == slice_[0]]
+                nxt.extend(sched + [p] for p in cand)
         level = nxt
+
+
+def walk(factory, points, *, clock_us=None, **kw):
+    """Drawn descent of the exploration tree: start from the unpreempted run; the j-th number of `points`
+    picks (modulo) one of the *effective* preemptions after the previous one, so every drawn entry changes the
+    interleaving.  Yields (schedule, RunResult, ctx) for every run on the path (len(points)+1 runs at most)."""
+    c0 = _clock.us if clock_us is None else int(clock_us)
+    sched = []
+    for j in range(len(points) + 1):
+        _clock.us = c0
+        threads, ctx = factory()
+        res = run_program(threads, sched, **kw)
+        yield list(sched), res, ctx
+        if j == len(points):
+            return
+        cand = next_preemptions(res, sched[-1][0] if sched else -1)
+        if not cand:
+            return
+        sched = sched + [cand[int(points[j]) % len(cand)]]
 
 
 def raw_schedules(K=3, max_pos=96, max_tid=3):
@@ -1534,9 +1917,22 @@ def raw_schedules(K=3, max_pos=96, max_tid=3):
     return st.lists(st.tuples(st.integers(0, max_pos - 1), st.integers(0, max_tid - 1)).map(list), min_size=0, max_size=K)
 
 
-def resolve_schedule(raw, base: RunResult, nthreads=None):
+def resolve_schedule(raw, base: RunResult, nthreads=None, effective=False):
     """Map raw [[pos, thread]] onto the steps of `base`: step = pos mod base.steps, tid = thread mod T.
-    Entries are sorted by step; of several entries for one step the first is kept."""
+    Entries are sorted by step; of several entries for one step the first is kept.
+    effective=True: each raw entry instead picks (pos*T + thread) modulo one of the effective preemptions of
+    `base` (next_preemptions), so no drawn entry is a no-op on the base run (later entries may still become
+    no-ops once an earlier one has changed the run; use walk() for entries that are effective by construction)."""
+    if effective:
+        cand = next_preemptions(base)
+        if not cand:
+            return []
+        T = nthreads or max(1, base.nthreads)
+        out = {}
+        for pos, t in raw:
+            s_, tid = cand[(int(pos) * T + int(t)) % len(cand)]
+            out.setdefault(s_, tid)
+        return [[s_, out[s_]] for s_ in sorted(out)]
     n = max(1, base.steps)
     T = nthreads or max(1, base.nthreads)
     out = {}
